@@ -163,8 +163,13 @@ func cmdCheck(args []string) {
 			continue
 		}
 		n := 0
+		// a function selected through a clause tag only: the obligations its tagged clauses rest on (invariants,
+		// callee preconditions, frames, no-panic: everything that carries the function-level props) belong to the
+		// property as well - a postcondition proved from an unchecked invariant proves nothing
+		cfn := eng.cs.Funcs[k]
+		viaClause := cfn != nil && !hasProp(cfn.Props, *prop)
 		for _, o := range fr.Obls {
-			if hasProp(o.Props, *prop) {
+			if hasProp(o.Props, *prop) || (viaClause && strings.Join(o.Props, " ") == strings.Join(cfn.Props, " ")) {
 				allObls = append(allObls, o)
 				n++
 			}
